@@ -196,7 +196,7 @@ CHECKS = {
         technique="exhaustive enumeration of the layout product against the harness's own decision table + reference decryptor; library and network routes",
         rule="layouts from the product {PS3ISO, ps3iso, Ps3Iso, PS3ISOX, GAMES} x {.iso,.ISO,.Iso,.bin} x nesting 0..2 below the PS3ISO element x {no key, adjacent, REDKEY, both "
              "with different keys, malformed adjacent, malformed adjacent + REDKEY; in a separate block: a directory, a self-referencing symbolic link or a unix socket named like the adjacent key file, with and without a REDKEY key} x {no watermark, encrypted 3k3y watermark with embedded key, decrypted watermark} x file length "
-             "{0xF6F, 0xF70, 0x106F, 0x1070, 8 sectors, 8 sectors+100} x {directly under the root, below a prefix directory}; both tiers enumerate the whole product (15 120 layouts + 48 long-name cases). the "
+             "{0xF6F, 0xF70, 0x106F, 0x1070, 8 sectors, 8 sectors+100} x {directly under the root, below a prefix directory; separately: below a directory whose own name contains the PS3ISO spelling, with a decoy key where a textual replacement would look}; both tiers enumerate the whole product (15 120 layouts + 48 long-name cases). the "
              "view obtained through FS.Open (2/3) or the network server (1/3) must equal the reference chosen by "
              "the decision table (adjacent key > REDKEY key > embedded 3k3y key + mask > mask only > identity), read as a whole and through 13 windows overlapping 0xF70..0x1070 by "
              "ReadAt, Seek+Read and both network read commands; files opened for writing (O_RDWR, O_RDWR|O_SYNC, O_RDWR|O_APPEND, O_WRONLY) read back and store bytes verbatim; every library case is opened a second time by its absolute path on a plain (not re-rooted) OsFs and must give the same view. non-trivial = every layout; distinct by all factors",
@@ -229,11 +229,11 @@ CHECKS = {
              "mixed-state history. for each: the fault-free run counts the filesystem operations K (open, openfile, stat, fstat, read, readat, seek, readdir, readdirnames, write, "
              "close, remove, mkdir) and reads R; then an injected error (EIO/EACCES/ENOENT/EMFILE by index) at EVERY k < K in turn, a short read at EVERY r < R, every ending "
              "(half-close, close, RST, truncated request, unknown opcode, 150 ms read timeout) after EVERY prefix of the history, and seeded pairs (k1,k2). oracle: before a "
-             "fault fires the strict protocol model; after it fired each reply must be the correct one, the opcode's failure code, an entry-by-entry listing that skips what it could not stat, a bulk listing that is empty, complete or lacks only symbolic links, or a correct "
+             "fault fires the strict protocol model (the expected content of a generated image is what the library builds from the same directory past the fault layer, compared under the C18 mask); after it fired each reply must be the correct one, the opcode's failure code, an entry-by-entry listing that skips what it could not stat, a bulk listing that is empty, complete or lacks only symbolic links, or a correct "
              "prefix followed by the end of the connection - never other bytes; after the connection ended the ledger must be balanced (every opened handle closed, incl. member "
              "files of images, key files, PARAM.SFO, scanned directories), the goroutine count back at its baseline, and a fresh connection served. unit random: rapid histories "
              "(C03 generator + image/encrypted opens) with one random fault or ending. non-trivial = an injected fault that fired while >= 1 handle was open, or an ending at a "
-             "point of a history; distinct by (scenario, mode, index, errno, ending). Fault shapes: error without data, short read without error (sequential reads), some bytes AND an error (sequential and positional reads), a directory read that hands out 1..4 entries AND an error (mode partial-list, at every directory-read index). Scenarios include a raw CD image with 2448-byte sectors (sector-size probe) and a named pipe (open must answer)",
+             "point of a history; distinct by (scenario, mode, index, errno, ending). Fault shapes: error without data, short read without error (sequential reads), some bytes AND an error (sequential and positional reads; the error is EIO in mode partial-read and io.EOF - although the file goes on - in mode partial-eof), a directory read that hands out 1..4 entries AND an error (mode partial-list, at every directory-read index). Scenarios include a raw CD image with 2448-byte sectors (sector-size probe) and a named pipe (open must answer)",
         assumptions=[INPROC, "faults are injected at the afero.Fs boundary (errors and short reads), not inside the kernel",
                      "DIR_SIZE after a fault may report any value up to the true total (the walk skips what it cannot read by design)",
                      "a lookup made to fail with ENOENT legitimately selects another documented key source (C11 don't-care)"],
@@ -270,7 +270,7 @@ CHECKS = {
         assumptions=["loopback source addresses 127.x.y.z and ::1 stand for arbitrary peers", "silence is observed for a fixed window; liveness (served after a slot is freed) is a bounded-time check with a generous deadline",
                      "the in-process units compose LimitListener and FilterListener in the same order as cmd/ps3netsrv-go/server.go; the *-bin units exercise the real wiring"],
         units=[
-            dict(test="TestC15Whitelist", shrink_s=4, unit="whitelist", kind="rapid", checks=(160, 4000), shards=(8, 16)),
+            dict(test="TestC15Whitelist", shrink_s=4, unit="whitelist", kind="rapid", checks=(400, 4000), shards=(8, 16)),
             dict(test="TestC15WhitelistBin", shrink_s=4, unit="whitelist-bin", kind="rapid", checks=(24, 480), shards=(8, 16), bin=True),
             dict(test="TestC15Limit", shrink_s=4, unit="limit", kind="rapid", checks=(64, 1600), shards=(16, 16)),
             dict(test="TestC15LimitBin", shrink_s=4, unit="limit-bin", kind="rapid", checks=(16, 320), shards=(8, 16), bin=True),
@@ -302,7 +302,7 @@ CHECKS = {
              "how many clients are served at once, whether an idle connection is cut within 2 s, whether debug lines appear, whether every stdout line parses as JSON, on which port pprof "
              "answers); every flag-vs-other-channel pair with conflicting values must show the flag's effect; other channel pairs (all in thorough, 1/3 in quick) must show one of the two "
              "values; a malformed value for whitelist / max-clients / root / read-timeout in any channel must stop start-up (nothing listening, non-zero exit, no crash). non-trivial = two "
-             "channels in conflict, or a non-flag channel alone; distinct by (setting, channel list, values). Malformed forms per security-relevant setting: wrong syntax, a second wrong form (root = a regular file, 300.1.1.1, 1.5, a duration without unit), the empty value. Every second case runs in a working directory that holds directories named server, decrypt and make-iso. Home cases: --config=~/f.ini and PS3NETSRV_CONFIG_FILE=~/f.ini with the file in the user's real home directory (skipped when it is not writable), incl. a missing one. File states per channel: missing, broken (unclosed section header), UTF-16LE with byte order mark (what a windows editor calls Unicode)",
+             "channels in conflict, or a non-flag channel alone; distinct by (setting, channel list, values). Malformed forms per security-relevant setting: wrong syntax, a second wrong form (root = a regular file, 300.1.1.1, 1.5, a duration without unit), the empty value. Every second case runs in a working directory that holds directories named server, decrypt and make-iso. Home cases: --config=~/f.ini and PS3NETSRV_CONFIG_FILE=~/f.ini with the file in the user's real home directory (skipped when it is not writable), incl. a missing one. File states per channel: missing, broken (unclosed section header), UTF-16LE with byte order mark (what a windows editor calls Unicode); for files named by flag or environment also: not readable by the server's user (the binary is started as uid 65534 with a root-owned 0600 file; skipped when the harness is not root)",
         assumptions=["the real binary built from the working tree is observed through TCP, stdout, exit status and /proc; precedence between non-flag channels is a don't-care (one of the given values)"],
         units=[
             dict(test="TestC19Config", unit="config", kind="enum", shards=(16, 16), bin=True),
@@ -316,7 +316,7 @@ CHECKS = {
              "the same directory and mode under the C18 mask (and fail when the library refuses the tree); decrypt output must equal the reference plaintext with cleared region table (3k3y: the "
              "256-byte area is a don't-care); with a pre-existing output the tool must exit non-zero and the recursive snapshot (hash, size, mtime) of the scratch directory must be unchanged; a "
              "successful output is then placed under a served root (in PS3ISO, ps3iso/sub, ISOS or the root) and read back through OPEN/READ_FILE/READ_CRIT: bytes must equal the tool output (the "
-             "3k3y area masked or not). non-trivial = existing output, stdout output, or serve-back; distinct by (tool, output kind, location, seed). Unit race: 2-4 decrypt runs with different inputs started together on one new output path, 4-10 rounds per case - at most one may succeed, and the file is then exactly its output. Half of the redump inputs carry a 3k3y mark (encrypted or decrypted form) in their plain first region: the output served back must not be transformed again",
+             "3k3y area masked or not). non-trivial = existing output, stdout output, or serve-back; distinct by (tool, output kind, location, seed). Unit race: 2-4 decrypt runs with different inputs started together on one new output path, 4-10 rounds per case - at most one may succeed, and the file is then exactly its output. Half of the redump inputs carry a 3k3y mark (encrypted or decrypted form) in their plain first region: the output served back must not be transformed again; a quarter carry the mark inside the plaintext of an encrypted sector (first plain region = sector 0 alone); no output of a decrypt tool may carry a 3k3y mark",
         assumptions=["the real binary built from the working tree is run as a subprocess; the library image is the oracle for make-iso (its own correctness is C07/C08)"],
         units=[
             dict(test="TestC20Tools", unit="tools", kind="rapid", checks=(480, 12000), shards=(8, 16), bin=True),
@@ -327,7 +327,7 @@ CHECKS = {
         fuzz=[('FuzzSFO', 90), ('FuzzImage', 90), ('FuzzStream', 90), ('FuzzINI', 30)],
         level="exploration",
         technique="structure-aware fuzzing (rapid) of hostile sessions against a worker process hosting the real binary under an address-space limit, hostile on-disk content through the library constructors and the CLI; native go fuzz targets in the thorough tier",
-        rule="unit sessions: a worker = the real server binary under 'ulimit -v 8000000' over a static hostile fixture (29 malformed PARAM.SFO variants, encrypted images with region counts 0/1/256/2^31/"
+        rule="unit sessions: a worker = the real server binary under 'ulimit -v 8000000' over a static hostile fixture (36 malformed PARAM.SFO variants incl. TITLE_IDs with fewer characters than bytes, encrypted images with region counts 0/1/256/2^31/"
              "2^32-1, non-monotonic and beyond-EOF tables, truncated images, short/non-hex/huge/empty key files, 3k3y images at lengths 0x106F/0x1070 and with broken tables, PSX images, a 16 MiB sparse "
              "file, 40 levels of nesting, 600 entries in one directory, 255-byte, non-UTF-8, newline and prefix-looking names, symlink loops). each case = 1..3 concurrent sessions of 1..25 hostile "
              "requests: opens of every fixture object plain and through ***DVD***/***PS3***, reads with limits/offsets from {0,1,2047..2049,0xF6F,0xF70,0x1070,6143,6144,2^31,2^32,2^63-1,2^63,2^64-1}, "
